@@ -15,7 +15,8 @@ from armi.utils.properties import ImmutablePropertyError
 from harness.C10_macro import arr, bool_same
 
 STUBS = ["libraries are built in memory (real IsotxsLibrary, XSNuclide, XSCollection, NuclideMetadata objects; vectors "
-         "are numpy OBJECT arrays of symbolic reals, matrices are concrete scipy csr matrices); nothing is read from "
+         "are numpy OBJECT arrays of symbolic reals, scatter matrices are concrete scipy csr matrices, production "
+         "matrices concrete dense arrays as the PMATRX reader makes them); nothing is read from "
          "files.  The merge only moves data: the symbolic content is the merge order (solver-enumerated), the group "
          "counts in the file metadata and every group BOUNDARY of the neutron / gamma energy structure of each library "
          "(equal or not decided by the solver) and the data values as tokens"]
@@ -40,8 +41,6 @@ def fill_nuclide(ctx, n, kind, t, label, k, ngn, ngg, items):
     nm = getattr(n, kind + "Metadata")
     nm["nuclideId"] = label[:-2]
     nm["amass"] = ctx.real("amass_%s_%s" % (t, label), 1.0, 300.0)
-    for key, v in nm.items():
-        items[(label, kind + "Metadata", key)] = v
 
     def vec(name, ng):
         return arr([ctx.real("%s_%s_%s_%d" % (name, t, label, g), 0.0, 1e3) for g in range(ng)])
@@ -60,29 +59,71 @@ def fill_nuclide(ctx, n, kind, t, label, k, ngn, ngg, items):
             col.n2nScatter = sp((ng, ng), 5 + k)
         # higher Legendre orders (P2, P3) of the scatter blocks
         col.higherOrderScatter = {(2, "elastic"): sp((ng, ng), 7 + k), (3, "elastic"): sp((ng, ng), 9 + k)}
-        for key, v in col.__dict__.items():
+    else:
+        n.neutronHeating = vec("neutronHeating", ngn)
+        n.neutronDamage = vec("neutronDamage", ngn)
+        n.gammaHeating = vec("gammaHeating", ngg)
+        # (the PMATRX reader stores the production matrices as dense numpy arrays: record.rwMatrix)
+        n.isotropicProduction = sp((ngg, ngn), 2 + k).toarray()
+        n.linearAnisotropicProduction = sp((ngg, ngn), 4 + k).toarray()
+        n.nOrderProductionMatrix = {2: sp((ngg, ngn), 6 + k).toarray()}
+    record_kind(n, kind, label, items)
+
+
+PRODUCTION_ATTRS = ("neutronHeating", "neutronDamage", "gammaHeating", "isotropicProduction",
+                    "linearAnisotropicProduction")
+
+
+def record_kind(n, kind, label, items):
+    """enter everything nuclide n holds of one kind of data into items[(label, part, name)]"""
+    for key, v in getattr(n, kind + "Metadata").items():
+        items[(label, kind + "Metadata", key)] = v
+    if kind in ("isotxs", "gamiso"):
+        part = "micros" if kind == "isotxs" else "gammaXS"
+        for key, v in getattr(n, part).__dict__.items():
             if key == "higherOrderScatter":
                 for kk, vv in v.items():
                     items[(label, part, ("higherOrderScatter", kk))] = vv
             elif v is not None and key != "source":
                 items[(label, part, key)] = v
     else:
-        n.neutronHeating = vec("neutronHeating", ngn)
-        n.neutronDamage = vec("neutronDamage", ngn)
-        n.gammaHeating = vec("gammaHeating", ngg)
-        n.isotropicProduction = sp((ngg, ngn), 2 + k)
-        n.linearAnisotropicProduction = sp((ngg, ngn), 4 + k)
-        n.nOrderProductionMatrix = {2: sp((ngg, ngn), 6 + k)}
-        for key in ("neutronHeating", "neutronDamage", "gammaHeating", "isotropicProduction",
-                    "linearAnisotropicProduction"):
+        for key in PRODUCTION_ATTRS:
             items[(label, "nuclide", key)] = getattr(n, key)
-        items[(label, "nuclide", ("nOrderProductionMatrix", 2))] = n.nOrderProductionMatrix[2]
+        for kk, vv in n.nOrderProductionMatrix.items():
+            items[(label, "nuclide", ("nOrderProductionMatrix", kk))] = vv
+
+
+def dup(v):
+    """a separate object with exactly the same content (arrays and sparse matrices copied; proxies are immutable)"""
+    return v.copy() if isinstance(v, np.ndarray) or sparse.issparse(v) else v
+
+
+def copy_kind(src, dst, kind, label, items):
+    """give nuclide dst an EXACT COPY (separate arrays, identical values) of the data of one kind nuclide src holds:
+    the same lattice-physics output arriving through a second file"""
+    nm = getattr(dst, kind + "Metadata")
+    for key, v in getattr(src, kind + "Metadata").items():
+        nm[key] = v
+    if kind in ("isotxs", "gamiso"):
+        part = "micros" if kind == "isotxs" else "gammaXS"
+        col = getattr(dst, part)
+        for key, v in getattr(src, part).__dict__.items():
+            if key == "higherOrderScatter":
+                col.higherOrderScatter = {kk: dup(vv) for kk, vv in v.items()}
+            elif key != "source":
+                setattr(col, key, dup(v))
+    else:
+        for key in PRODUCTION_ATTRS:
+            setattr(dst, key, dup(getattr(src, key)))
+        dst.nOrderProductionMatrix = {kk: dup(vv) for kk, vv in src.nOrderProductionMatrix.items()}
+    record_kind(dst, kind, label, items)
 
 
 class Source:
     """One single-kind library and the record of everything it holds: items[(label, part, name)] -> object."""
 
-    def __init__(self, ctx, idx, kind, labels, numGroups, ngn=NGN, ngg=NGG):
+    def __init__(self, ctx, idx, kind, labels, numGroups, ngn=NGN, ngg=NGG, copyOf=None):
+        """copyOf: a Source of the same kind; the labels this library shares with it hold EXACT COPIES of its data"""
         self.kind, self.labels, self.tag = kind, list(labels), "%s%d" % (kind, idx)
         self.lib = lib = xsLibraries.IsotxsLibrary()
         t = self.tag
@@ -108,7 +149,10 @@ class Source:
         for k, label in enumerate(labels):
             n = xsNuclides.XSNuclide(lib, label)
             lib[label] = n
-            fill_nuclide(ctx, n, kind, t, label, k, ngn, ngg, self.items)
+            if copyOf is not None and label in copyOf.labels:
+                copy_kind(copyOf.lib[label], n, kind, label, self.items)
+            else:
+                fill_nuclide(ctx, n, kind, t, label, k, ngn, ngg, self.items)
         # contents of the arrays at build time (to see in-place changes)
         self.contents = {k: content(v) for k, v in self.items.items()}
 
@@ -192,6 +236,8 @@ def same_state(ctx, what, old, new, skip=()):
             ctx.check("%s: %s unchanged" % (what, key), ok)
 
 
+COPY_OF_FIRST = "copy of the first library of its kind"
+
 # scenario -> list of (kind, labels) or (kind, labels, neutron groups, gamma groups)
 SCENARIOS = {
     # the three kinds of data of the same nuclides arrive from three files
@@ -208,6 +254,12 @@ SCENARIOS = {
     # production data whose neutron (gamma) structure has another NUMBER of groups than the neutron (gamma) file
     "neutron_count": [("isotxs", ["U235AA", "FE56AA"]), ("gamiso", ["U235AA"]), ("pmatrx", ["U235AA", "FE56AA"], 3, 3)],
     "gamma_count": [("isotxs", ["U235AA"]), ("gamiso", ["U235AA", "FE56AA"]), ("pmatrx", ["U235AA", "FE56AA"], 2, 2)],
+    # the same kind of data for a label twice, the second source holding an EXACT COPY (separate arrays, identical values
+    # and nuclide metadata) of what the first holds for that label: refused like any other overlap, whatever the values
+    "overlap_copy_production": [("pmatrx", ["U235AA", "FE56AA"]), ("pmatrx", ["U235AA", "NA23AA"], COPY_OF_FIRST)],
+    "twin_production": [("pmatrx", ["U235AA"]), ("pmatrx", ["U235AA"], COPY_OF_FIRST)],
+    "overlap_copy_neutron": [("isotxs", ["U235AA", "FE56AA"]), ("isotxs", ["U235AA"], COPY_OF_FIRST)],
+    "twin_gamma": [("isotxs", ["U235AA"]), ("gamiso", ["U235AA"]), ("gamiso", ["U235AA"], COPY_OF_FIRST)],
 }
 
 # IsotxsLibrary._mergeNuclides adopts the nuclides of the other library one by one and notices an overlapping label only
@@ -243,6 +295,13 @@ def differs(a, b):
     return OR(*[x != y for x, y in zip(a, b)])
 
 
+def same_datum(w, v):
+    """the very object (arrays, matrices: their contents are compared separately) or an equal plain value"""
+    if isinstance(v, np.ndarray) or sparse.issparse(v) or isinstance(w, np.ndarray) or sparse.issparse(w):
+        return w is v
+    return w is v or bool_same(w, v)
+
+
 def same_items(got, want):
     return got is not None and want is not None and len(got) == len(want) and \
         all(x is y or bool_same(x, y) for x, y in zip(got, want))
@@ -250,18 +309,25 @@ def same_items(got, want):
 
 @harness("C10", bounds="2-3 single-kind libraries (ISOTXS-, GAMISO-, PMATRX-like; 2 neutron / 3 gamma groups, or 3 / 2 "
                        "where the scenario says so; 1-2 nuclide labels each, scenarios enumerated: same labels from "
-                       "three kinds, two and three cross-section IDs, the same kind of data for one label twice, "
+                       "three kinds, two and three cross-section IDs, the same kind of data for one label twice (with values of its "
+                       "own, or as an exact copy of what the other source holds), "
                        "production data with another number of neutron / gamma groups) merged into an empty library "
                        "in a solver-chosen order; symbolic: merge order, group count in each file's metadata (Int "
                        "1..3), EVERY BOUNDARY of the neutron / gamma group structure of each library (reals, equal or "
                        "not between libraries decided by the solver), atomic masses and all vector data (reals, as "
-                       "tokens); higher-order scatter blocks and production matrices concrete sparse matrices",
+                       "tokens); higher-order scatter blocks concrete sparse matrices, production matrices concrete dense arrays",
          stubs=STUBS, max_paths=1500,
          instances={"quick": [dict(scenario=s) for s in SCENARIOS]})
 def library_merge_is_lossless_and_order_independent(ctx, scenario):
     spec = SCENARIOS[scenario]
     numGroups = [ctx.int("numGroups_%d" % i, 1, 3) for i in range(len(spec))]
-    srcs = [Source(ctx, i, sp_[0], sp_[1], numGroups[i], *sp_[2:]) for i, sp_ in enumerate(spec)]
+    srcs = []
+    for i, sp_ in enumerate(spec):
+        if sp_[-1] == COPY_OF_FIRST:
+            first = [s for s in srcs if s.kind == sp_[0]][0]
+            srcs.append(Source(ctx, i, sp_[0], sp_[1], numGroups[i], *sp_[2:-1], copyOf=first))
+        else:
+            srcs.append(Source(ctx, i, sp_[0], sp_[1], numGroups[i], *sp_[2:]))
     order = ctx.choice("order", list(itertools.permutations(range(len(srcs)))))
     target = xsLibraries.IsotxsLibrary()
     merged = []
@@ -328,7 +394,7 @@ def library_merge_is_lossless_and_order_independent(ctx, scenario):
               sorted(map(str, got)) == sorted(map(str, want)))
     for k, v in want.items():
         w = got.get(k)
-        ctx.check("%s is the source's datum" % (k,), w is not None and (w is v or bool_same(w, v)))
+        ctx.check("%s is the source's datum" % (k,), w is not None and same_datum(w, v))
         if w is not None and (isinstance(v, np.ndarray) or sparse.issparse(v)):
             c = content(w)
             ctx.check("%s holds the source's values" % (k,), len(c) == len(wantContent[k]) and
@@ -417,18 +483,27 @@ SUBSETS = [c for r in range(4) for c in itertools.combinations(KINDS, r)]
 @harness("C10", bounds="XSNuclide.merge of two nuclides with the same label from two libraries; which kinds of data "
                        "(neutron / gamma / production: every subset, also none) each of them holds is a symbolic choice "
                        "(64 combinations); atomic masses in the metadata and all vector data symbolic reals (equal or "
-                       "not decided by the solver where the code compares them)", stubs=STUBS, max_paths=600)
-def nuclide_merge_refuses_overlap_and_keeps_operands(ctx):
+                       "not decided by the solver where the code compares them); instance copy=True: every kind of "
+                       "data the other nuclide holds is an EXACT COPY (separate arrays, identical values and metadata) of "
+                       "one set of data per kind, which the receiver holds too where it holds that kind",
+         stubs=STUBS, max_paths=600, instances={"quick": [dict(copy=False), dict(copy=True)]})
+def nuclide_merge_refuses_overlap_and_keeps_operands(ctx, copy):
     label = "U235AA"
     kindsOf = [ctx.choice("kinds_a", SUBSETS), ctx.choice("kinds_b", SUBSETS)]
-    nucs, items = [], [{}, {}]
+    nucs, items, holders = [], [{}, {}], {}
     for i, tag in enumerate("ab"):
         lib = xsLibraries.IsotxsLibrary()
         n = xsNuclides.XSNuclide(lib, label)
         lib[label] = n
         for kind in KINDS:       # (every input is declared on every path: the kinds it does not hold go to a dummy)
+            if copy and i == 1:
+                # the same kind of data for the same label, whatever the values: here bit-identical to the receiver's
+                if kind in kindsOf[1]:
+                    copy_kind(holders[kind], n, kind, label, items[1])
+                continue
             holder = n if kind in kindsOf[i] else xsNuclides.XSNuclide(xsLibraries.IsotxsLibrary(), label)
             fill_nuclide(ctx, holder, kind, tag + "_" + kind, label, i, NGN, NGG, items[i] if holder is n else {})
+            holders.setdefault(kind, holder)
         nucs.append(n)
     a, b = nucs
     before = [nuclide_holdings(label, n, {}) for n in nucs]
@@ -449,7 +524,7 @@ def nuclide_merge_refuses_overlap_and_keeps_operands(ctx):
         ctx.check("refused: %s holds the same items" % who, sorted(map(str, after[i])) == sorted(map(str, before[i])))
         for k, v in before[i].items():
             w = after[i].get(k)
-            ctx.check("refused: %s: %s unchanged" % (who, (k,)), w is not None and (w is v or bool_same(w, v)) and
+            ctx.check("refused: %s: %s unchanged" % (who, (k,)), w is not None and same_datum(w, v) and
                       same_items(content(w), beforeContent[i][k]))
 
     if refused is not None:
@@ -464,4 +539,64 @@ def nuclide_merge_refuses_overlap_and_keeps_operands(ctx):
               sorted(map(str, after[0])) == sorted(map(str, want)))
     for k, v in want.items():
         w = after[0].get(k)
-        ctx.check("%s is the source's datum" % (k,), w is not None and (w is v or bool_same(w, v)))
+        ctx.check("%s is the source's datum" % (k,), w is not None and same_datum(w, v))
+
+
+# ---------------------------------------------------------------------------------------------------------------
+# derived quantity: the total scatter matrix of ONE collection is the sum of the scatter matrices it holds
+
+# XSCollection.getTotalScatterMatrix documents that a scatter matrix the collection does not have is skipped (with a
+# warning), but evaluates `self.n2nScatter * 2.0` BEFORE looking which matrices are present: a collection without an
+# (n,2n) matrix (a nuclide whose file has none; any GAMISO collection) raises TypeError instead of returning elastic +
+# inelastic.  Plain Python: c = XSCollection(None); c.elasticScatter = csr_matrix(numpy.eye(2));
+# c.getTotalScatterMatrix() -> TypeError: unsupported operand type(s) for *: 'NoneType' and 'float'.
+# While the flag is True only collections that hold an (n,2n) matrix are examined.
+KNOWN_DEFECT_total_scatter_raises_without_n2n = True  # repair proposed: /tmp/scratch/triage/<this name>.diff
+
+SCATTER_MATRICES = tuple(xsCollections.BASIC_SCAT_MATRIX)            # elasticScatter, inelasticScatter, n2nScatter
+PRESENT = [c for r in range(4) for c in itertools.combinations(SCATTER_MATRICES, r)]
+
+
+def matrix(rows):
+    """2-D float array on plain numbers, object array of proxies otherwise"""
+    if not any(is_sym(v) for row in rows for v in row):
+        return np.array(rows, dtype=float)
+    a = np.empty((len(rows), len(rows[0])), dtype=object)
+    for i, row in enumerate(rows):
+        for j, v in enumerate(row):
+            a[i, j] = v
+    return a
+
+
+@harness("C10", bounds="one real XSCollection, 2 groups; which of the elastic / inelastic / (n,2n) scatter matrices it holds "
+                       "is a symbolic choice (every subset, also none: the others are None as for a nuclide whose file "
+                       "lacks them); every entry of every matrix a symbolic real in [0,1000] (dense arrays; the method only "
+                       "multiplies by 2 and adds, as it does with the sparse matrices of a library)",
+         stubs=["the scatter matrices of the collection are dense numpy OBJECT arrays of symbolic reals (float arrays in "
+                "the concrete replays) instead of scipy sparse matrices"], max_paths=100)
+def total_scatter_is_the_sum_of_the_matrices_present(ctx):
+    present = ctx.choice("present", PRESENT)
+    vals = {name: [[ctx.real("%s_%d%d" % (name, i, j), 0.0, 1e3) for j in range(NGN)] for i in range(NGN)]
+            for name in SCATTER_MATRICES}
+    if KNOWN_DEFECT_total_scatter_raises_without_n2n and "n2nScatter" not in present:
+        return
+    col = xsCollections.XSCollection(None)
+    for name in present:
+        setattr(col, name, matrix(vals[name]))
+    total = col.getTotalScatterMatrix()          # (an exception here is replayed on plain numbers and reported)
+    for name in SCATTER_MATRICES:
+        held = getattr(col, name)
+        ctx.check("%s of the collection is left as it was" % name,
+                  held is None if name not in present else
+                  all(held[i, j] is vals[name][i][j] or bool_same(held[i, j], vals[name][i][j])
+                      for i in range(NGN) for j in range(NGN)))
+    for i in range(NGN):
+        for j in range(NGN):
+            weight = {"elasticScatter": 1.0, "inelasticScatter": 1.0, "n2nScatter": 2.0}
+            want = sum((weight[name] * vals[name][i][j] for name in present), 0.0)
+            scale = sum((2.0 * vals[name][i][j] for name in present), 0.0) + 1e-30
+            if ctx.canary and present == ("inelasticScatter", "n2nScatter") and (i, j) == (1, 0):
+                want = want + ITE(AND(vals["n2nScatter"][1][0] > 999, vals["inelasticScatter"][1][0] < 1), 1.0, 0.0)
+            got = total[i, j] if present else total
+            ctx.check_close("total scatter[%d,%d] = elastic + inelastic + 2 x (n,2n), over the matrices the collection "
+                            "holds (an absent one contributes nothing)" % (i, j), got, want, scale=scale)
